@@ -265,10 +265,20 @@ def insertArgs (h : Heap) (p : Nat) : Nat → List Arg → Except Err (Heap × N
       | .error e => .error e
       | .ok (h3, pos3, ins') => .ok (h3, pos3, ins ++ ins')
 
+/-- how `Tag._insert` reads a possibly negative `position`, the way `list.insert` does:
+    `if position < 0: position = max(0, len(self.contents) + position)` (element.py, start of `_insert`; the clamp to the length,
+    `position = min(position, len(self.contents))`, is part of `insertCore`) -/
+def normPos (len : Nat) (z : Int) : Nat := if z < 0 then (Int.ofNat len + z).toNat else z.toNat
+
 def insert (h : Heap) (p position : Nat) (args : List Arg) : Except Err (Heap × List Nat) :=
   match insertArgs h p position args with
   | .error e => .error e
   | .ok (h1, _, ins) => .ok (h1, ins)
+
+/-- `Tag.insert(position, *new_children)` with an arbitrary Python integer: the first `_insert` normalises it against the children
+    present at that moment; every later argument goes to `index(last inserted) + 1`, which is never negative -/
+def insertZ (h : Heap) (p : Nat) (z : Int) (args : List Arg) : Except Err (Heap × List Nat) :=
+  insert h p (normPos (h.kids p).length z) args
 
 /-- `Tag.append(tag)` = `self.insert(len(self.contents), tag)[0]` -/
 def append (h : Heap) (p : Nat) (a : Arg) : Except Err Heap :=
